@@ -63,8 +63,10 @@ def py_mh(m):
     if k == "dependent":
         f = m[2]
         body = {"intrange_lo": lambda: f"IntRange(a, {f[1]})", "intrange_hi": lambda: f"IntRange({f[1]}, a)",
-                "varrange_of": lambda: "VarRange(list(a))", "listsize_upto": lambda: "ListSizeBetween(0, a)"}[f[0]]()
-        return f'Dependent("f{m[1]}", lambda a: {body})'
+                "varrange_of": lambda: "VarRange(list(a))", "listsize_upto": lambda: "ListSizeBetween(0, a)",
+                "intrange2": lambda: "IntRange(b - a, b)"}[f[0]]()
+        deps = m[1] if isinstance(m[1], list) else [m[1]]
+        return f'Dependent("{",".join("f%d" % j for j in deps)}", lambda {"a, b" if f[0] == "intrange2" else "a"}: {body})'
     raise ValueError(m)
 
 
@@ -154,8 +156,9 @@ def c_mh(m):
     if k == "dependent":
         f = m[2]
         df = {"intrange_lo": lambda: f"(DIntRangeLo {cz(f[1])})", "intrange_hi": lambda: f"(DIntRangeHi {cz(f[1])})",
-              "varrange_of": lambda: "DVarRangeOf", "listsize_upto": lambda: "DListSizeUpTo"}[f[0]]()
-        return f"(MDependent {cn(m[1])} {df})"
+              "varrange_of": lambda: "DVarRangeOf", "listsize_upto": lambda: "DListSizeUpTo", "intrange2": lambda: "DIntRange2"}[f[0]]()
+        deps = m[1] if isinstance(m[1], list) else [m[1]]
+        return f"(MDependent {clist(map(cn, deps))} {df})"
     raise ValueError(m)
 
 
@@ -255,7 +258,17 @@ def gen_ty(r, n_classes, depth, fields_before, opts):
     if k == "tuple":
         return ["tuple", [gen_ty(r, n_classes, depth - 1, [], dict(opts, dependent=False)) for _ in range(r.randrange(1, 4))]]
     if k == "union":
-        return ["union", [gen_ty(r, n_classes, depth - 1, [], dict(opts, dependent=False, unions=False)) for _ in range(r.randrange(2, 4))]]
+        # typing.Union drops duplicate members (Union[int, int] is int): keep the members distinct
+        members = []
+        for _ in range(r.randrange(2, 4) * 4):
+            t = gen_ty(r, n_classes, depth - 1, [], dict(opts, dependent=False, unions=False))
+            if t not in members:
+                members.append(t)
+            if len(members) == 3:
+                break
+        if len(members) < 2:
+            members = [["base", "int"], ["base", "bool"]]
+        return ["union", members[: r.randrange(2, 4)] if len(members) > 2 else members]
     raise ValueError(k)
 
 
